@@ -78,8 +78,8 @@ def slice_tuples(level):
 def run_C01(ctx):
     ctx.build("opt")
     lvl = 0 if ctx.quick() else 1
-    nsub = 25 if ctx.quick() else 120
-    consts = session_consts(OpSet='{"slice"}', LeafSet=leafset(2 if ctx.quick() else 3),
+    nsub = 25 if ctx.quick() else 100          # (leafset(3) x 120 tuples does not finish in 25 minutes)
+    consts = session_consts(OpSet='{"slice"}', LeafSet=leafset(2),
                             SliceTuples="RandomSubset(%d, %s)" % (nsub, slice_tuples(lvl)))
     ctx.tlc_phase("slice-lists-options", "Session", consts, invariants=["Refines", "Closed"],
                   require_actions=["SliceOp", "WrapListOffset", "WrapList", "WrapRegular", "WrapIndexedOption"],
@@ -703,10 +703,11 @@ TF_PARAMS_T = ('{<<>>, << <<"a", "1">> >>, << <<"__categorical__", "true">> >>, 
 def run_C17(ctx):
     ctx.build_l2()
     q = ctx.quick()
-    # (exhaustive depth 2 does not finish in half an hour even with the narrow alphabets: depth 1 is exhaustive -- with the
-    #  wide alphabets in the thorough tier -- and deeper trees are sampled by TLC's simulation mode)
-    consts = dict(MaxDepth="1", ParamSets=TF_PARAMS_Q if q else TF_PARAMS_T,
-                  TypeStrsSet='{"", "mytype"}', RecNames='{"", "Point", "int"}', Dtypes='{"int64"}' if q else '{"int64", "bool", "float32"}',
+    # (exhaustive depth 2 does not finish in half an hour even with the narrow alphabets, nor does depth 1 with the wide
+    #  parameter alphabet: depth 1 is exhaustive, the thorough tier adds a second leaf dtype, and deeper trees are sampled by
+    #  TLC's simulation mode)
+    consts = dict(MaxDepth="1", ParamSets=TF_PARAMS_Q,
+                  TypeStrsSet='{"", "mytype"}', RecNames='{"", "Point", "int"}', Dtypes='{"int64"}' if q else '{"int64", "bool"}',
                   EmitOn="TRUE")
     ctx.l2_phase("type-printer-parser", "TypesForms", consts, ("l2replay", "h_c17_types"), invariants=["PrintsSomething"],
                  init="TFInit", next_="TFNext", view="TFView", action_constraints=["TFEmit"],
